@@ -106,6 +106,10 @@ def build_case(d):
                 m=np.array(mtrue), k=ktrue, cands=cands, rot_arg=rot_arg, shape=shape)
 
 
+class GroupTemplateFreeMismatch(Exception):
+    pass
+
+
 def run_alignment(d, c):
     """returns aligned Molecules (rows matched through uid) for the loader kind."""
     from acryo import SubtomogramLoader, BatchLoader, Molecules, MockLoader
@@ -149,7 +153,17 @@ def run_alignment(d, c):
         return out.molecules, out2.molecules
     if kind == "group":
         grp = loader.groupby("g").align(tmpl, max_shifts=ms, alignment_model=Model, **kw)
-        return Molecules.concat([ldr.molecules for _, ldr in grp])
+        out = Molecules.concat([ldr.molecules for _, ldr in grp])
+        if d.get("group_nt"):
+            # differential: template-free group alignment == group alignment against the group averages
+            g0 = loader.groupby("g")
+            avg = g0.average(c["shape"])
+            a1 = Molecules.concat([ldr.molecules for _, ldr in g0.align_no_template(max_shifts=ms, output_shape=c["shape"], alignment_model=Model)])
+            a2 = Molecules.concat([ldr.molecules for _, ldr in g0.align(dict(avg), max_shifts=ms, alignment_model=Model)])
+            if not (np.array_equal(a1.pos, a2.pos) and np.allclose(a1.quaternion(), a2.quaternion(), atol=1e-7)
+                    and a1.features["uid"].to_list() == a2.features["uid"].to_list()):
+                raise GroupTemplateFreeMismatch()
+        return out
     out = loader.align(tmpl, max_shifts=ms, alignment_model=Model, **kw)
     return out.molecules
 
@@ -176,7 +190,11 @@ def judge(d):
                               features=mole.features)
     with warnings.catch_warnings():
         warnings.simplefilter("ignore")
-        res = run_alignment(d, c)
+        try:
+            res = run_alignment(d, c)
+        except GroupTemplateFreeMismatch:
+            out.append(viol("C01/group-template-free-differs", f"{d['model']} loader=group: LoaderGroup.align_no_template != LoaderGroup.align(group averages)"))
+            return out
     res2 = None
     if kind == "notemplate":
         res, res2 = res
@@ -285,7 +303,8 @@ def cases(draw, kinds=("single", "batch", "group", "mock", "multi", "notemplate"
             "grp": i if i < 2 else draw(st.integers(0, 1)),
         })
     return {"loader": kind, "model": model, "shape": shape, "scale": scale, "order": order, "max_shifts": ms,
-            "ms_form": mform, "rots": rots, "blobsets": blobsets, "particles": parts, "ntomo": ntomo, "cell": cell}
+            "ms_form": mform, "rots": rots, "blobsets": blobsets, "particles": parts, "ntomo": ntomo, "cell": cell,
+            "group_nt": draw(st.booleans())}
 
 
 def n_candidates(d):
